@@ -405,6 +405,25 @@ Theorem C03_reorder_condition_decidable : forall e ref props, CodecDecCommute.en
 Proof. exact CodecDecReorder.env_commute_sound. Qed.
 Print Assumptions C03_reorder_condition_decidable.
 
+(* explicit nulls: members `"k":null` for any properties of the root object, added anywhere among the
+   members, in any order: accepted exactly when the document without them is, with the same message *)
+Theorem C03_null_padded_reordered_document_same_message :
+  forall orc e root props bs bs' ms ms' nulls rest rest' me me',
+  lookup e root = Some (SObject props) -> CodecDecReorder.props_commute e props ->
+  lex bs = (tokens_of (JObj ms) ++ rest, me) -> lex bs' = (tokens_of (JObj ms') ++ rest', me') ->
+  CodecDecReorder.null_members props nulls -> Permutation (nulls ++ ms) ms' ->
+  forall m', decode_bytes orc e root bs = Ok m' <-> decode_bytes orc e root bs' = Ok m'.
+Proof. exact CodecDecReorder.padded_document_iff. Qed.
+Print Assumptions C03_null_padded_reordered_document_same_message.
+
+(* the same for any object body below the nesting bound *)
+Theorem C03_null_padded_object_same_message : forall orc e d props ms ms' nulls m seen m' f,
+  CodecDecReorder.props_commute e props -> CodecDecReorder.null_members props nulls ->
+  Permutation (nulls ++ ms) ms' -> (max_nesting_depth <? d + 1) = false -> CodecDecMsgSorted.wf m ->
+  tr_object orc e f d props ms m seen = Ok m' -> exists f', tr_object orc e f' d props ms' m seen = Ok m'.
+Proof. exact CodecDecReorder.padded_object. Qed.
+Print Assumptions C03_null_padded_object_same_message.
+
 (* {"i":-7,"r":["a"]} and {"r":["a"],"i":-7} on var_env *)
 Example C03_example_reordered :
   CodecDecCommute.env_commute var_env = true /\
